@@ -53,6 +53,10 @@ structure DemuxCfg where
   parser : ParserKind := .none
   packetAPI : Bool := false
   view : View := .seq
+  /-- perpid view: keep only PES data / drop these PIDs / omit the error count and ending -/
+  onlyPES : Bool := false
+  exclude : List Nat := []
+  noErr : Bool := false
   deriving Inhabited
 
 def ReaderKind.name : ReaderKind → String
@@ -136,11 +140,12 @@ def observe (c : DemuxCfg) (rs : List CallRes) (final : Demux) : String :=
       | _ => none)
   | .perpid =>
     let ds := rs.filterMap fun r => match r with | .data (.ok d) _ => some d | _ => none
+    let ds := ds.filter fun d => (!c.onlyPES || d.pes.isSome) && !c.exclude.contains d.pid
     let pids := ((ds.map (·.pid)).eraseDups.toArray.qsort (· < ·)).toList
     let errors := (rs.filter fun r => match r with
       | .data (.err e) _ => e != .eof | .data .panic _ => true | _ => false).length
     let ending := match rs.getLast? with | some (.data (.err .eof) _) => "eof" | _ => "other"
-    Spec.showPerPID (pids.map fun pid => (pid, ds.filter (·.pid == pid))) errors ending
+    Spec.showPerPID (pids.map fun pid => (pid, ds.filter (·.pid == pid))) errors ending c.noErr
 
 def callsJson (cs : List Call) : String :=
   jarr (cs.map fun c => match c with | .next => jstr "next" | .rewind => jstr "rewind" | .poison => jstr "poison")
@@ -157,7 +162,8 @@ def demuxCase (bs : Bytes) (c : DemuxCfg) (calls : Option (List Call)) (spec : O
     args := [("hex", jhex bs), ("size", jnat c.size), ("reader", jstr c.kind.name), ("chunks", jarr (c.chunks.map jnat)),
              ("fault", match c.fault with | some (pos, once) => jobj [("at", jnat pos), ("once", jbool once)] | none => "null"),
              ("skip", c.skipper.toJson), ("parser", jstr c.parser.name), ("api", jstr (if c.packetAPI then "packet" else "data")),
-             ("calls", callsJson cs), ("view", jstr c.view.name)] ++ (if judge = "" then [] else [("judge", jstr judge)]),
+             ("calls", callsJson cs), ("view", jstr c.view.name), ("onlyPES", jbool c.onlyPES),
+             ("exclude", jarr (c.exclude.map jnat)), ("noErr", jbool c.noErr)] ++ (if judge = "" then [] else [("judge", jstr judge)]),
     model := observe c rs final, spec := spec, tag := tag, cls := cls }
 
 end Astits
